@@ -23,9 +23,14 @@ pub enum MutClass {
     Utf8Poison,
     /// random bytes altogether
     Garbage,
+    /// a structurally coherent edit that still parses: one head (document chunk) or dependency (change, bundle chunk) dropped
+    /// or duplicated together with its count and, for documents, its head index; checksum always recomputed. What a decoder
+    /// that verifies "some" rather than "exactly these" would let through.
+    Coherent,
 }
 
-pub const ALL_CLASSES: [MutClass; 10] = [
+pub const ALL_CLASSES: [MutClass; 11] = [
+    MutClass::Coherent,
     MutClass::BitFlip,
     MutClass::ByteSet,
     MutClass::Truncate,
@@ -523,6 +528,49 @@ pub fn mutate_chunks(input: &[u8], m: Mutation) -> (Vec<u8>, String) {
             }
             (finish(b, 0, m.fix_checksum), format!("chunk {ci} type {}: invalid UTF-8 {:02x?} written at {p} in {what}", c.typ, bad))
         }
+        MutClass::Coherent => {
+            // the count field named "heads"/"deps", the 32-byte hash fields that follow it, and (documents) the trailing indexes
+            let ci_count = fields.iter().position(|f| f.kind == FieldKind::Count && (f.name == "heads" || f.name == "deps"));
+            let Some(cpos) = ci_count else { return generic(&mut rng, MutClass::BitFlip) };
+            let hashes: Vec<&Field> = fields[cpos + 1..].iter().take_while(|f| f.name == "hash").collect();
+            let idxs: Vec<&Field> = fields.iter().filter(|f| f.name == "head_index").collect();
+            let n = hashes.len();
+            if n == 0 {
+                return generic(&mut rng, MutClass::BitFlip);
+            }
+            let k = rng.usize(n);
+            let drop = n >= 1 && rng.chance(700);
+            let mut b = input.to_vec();
+            let mut delta: isize = 0;
+            // work back to front so that earlier offsets stay valid
+            if let Some(ix) = idxs.get(k) {
+                if idxs.len() == n {
+                    if drop {
+                        b = splice(&b, ix.start, ix.end, &[]);
+                        delta -= (ix.end - ix.start) as isize;
+                    } else {
+                        let dup = b[ix.start..ix.end].to_vec();
+                        b = splice(&b, ix.end, ix.end, &dup);
+                        delta += dup.len() as isize;
+                    }
+                }
+            }
+            let h = hashes[k];
+            if drop {
+                b = splice(&b, h.start, h.end, &[]);
+                delta -= 32;
+            } else {
+                let dup = b[h.start..h.end].to_vec();
+                b = splice(&b, h.end, h.end, &dup);
+                delta += 32;
+            }
+            let cf = &fields[cpos];
+            let mut enc = Vec::new();
+            write_uleb(if drop { n as u64 - 1 } else { n as u64 + 1 }, &mut enc);
+            b = splice(&b, cf.start, cf.end, &enc);
+            delta += enc.len() as isize - (cf.end - cf.start) as isize;
+            (finish(b, delta, true), format!("chunk {ci} type {}: {} {} {k} of {n}", c.typ, if drop { "dropped" } else { "duplicated" }, if cf.name == "heads" { "head" } else { "dep" }))
+        }
         _ => generic(&mut rng, m.class),
     }
 }
@@ -555,7 +603,7 @@ pub fn mutate_sync(input: &[u8], m: Mutation) -> (Vec<u8>, String) {
     let fields = sync_fields(input);
     let mut b = input.to_vec();
     match m.class {
-        MutClass::FieldExtreme | MutClass::SpecMutate | MutClass::ColumnSplice => {
+        MutClass::FieldExtreme | MutClass::SpecMutate | MutClass::ColumnSplice | MutClass::Coherent => {
             let cands: Vec<&Field> = fields.iter().filter(|f| matches!(f.kind, FieldKind::Count | FieldKind::Len | FieldKind::Num)).collect();
             if cands.is_empty() {
                 let p = rng.usize(b.len());
